@@ -67,6 +67,10 @@ def call_model(ex, fn: Term, args: List[Term], kwargs: Dict[str, Term], st: Stat
         return call_ext(ex, fn.args[0], args, kwargs, st, node)
     if op == "extmeth":
         recv, name, base = fn.args
+        if ex.sym_bytes and base in ("BytesIO", "io.BytesIO"):
+            r = _concrete_bytesio(ex, recv, name, args, kwargs, st, node)
+            if r is not None:
+                return r
         if name == "__init__":
             o = ex.obj(st, recv)
             if o is not None:
@@ -93,8 +97,60 @@ def call_model(ex, fn: Term, args: List[Term], kwargs: Dict[str, Term], st: Stat
     raise Unsupported("call of %s at line %d" % (show(fn, 3), getattr(node, "lineno", 0)))
 
 
+def _concrete_bytesio(ex, recv, name, args, kwargs, st, node):
+    """io.BytesIO over a byte string of known length (symbolic contents): buffer and position are tracked exactly"""
+    from .exprs import sb_items, sbytes
+
+    o = ex.obj(st, recv)
+    if o is None:
+        return None
+    if name == "__init__":
+        items = sb_items(args[0]) if args else []
+        if items is None:
+            return None
+        o.attrs["#buf"] = tuple(items)
+        o.attrs["#pos"] = 0
+        return NONE
+    buf, pos = o.attrs.get("#buf"), o.attrs.get("#pos")
+    if buf is None or not isinstance(pos, int):
+        return None
+    if name == "read":
+        n = None
+        if args and is_const(args[0]) and (cval(args[0]) is None or isinstance(cval(args[0]), int)):
+            n = cval(args[0])
+        elif args:
+            o.attrs.pop("#buf", None)  # symbolic count: position no longer known
+            return None
+        end = len(buf) if (n is None or n < 0) else min(len(buf), pos + n)
+        out = buf[pos:end] if pos < len(buf) else ()
+        o.attrs["#pos"] = max(pos, end) if out else pos
+        return sbytes(out)
+    if name == "tell":
+        return C(pos)
+    if name == "getvalue":
+        return sbytes(buf)
+    if name == "seek":
+        if args and is_const(args[0]) and isinstance(cval(args[0]), int) and (len(args) == 1 or (is_const(args[1]) and cval(args[1]) == 0)):
+            if cval(args[0]) < 0:
+                ex.emit("raise", node, st, exc="ValueError", exc_term=mk("builtin", "ValueError"), args=(), reraise=False, implicit=True, construct="seek to a negative position")
+                raise PathDead()
+            o.attrs["#pos"] = cval(args[0])
+            return C(cval(args[0]))
+        o.attrs.pop("#buf", None)
+        return None
+    return None
+
+
 # ---------------------------------------------------------------------- method on symbolic receiver
 def method_on_symbolic(ex, recv: Term, name: str, args, kwargs, st: State, node, ext_base: Optional[str] = None) -> Term:
+    if ex.sym_bytes and name == "to_bytes" and ext_base is None and args and is_const(args[0]) and isinstance(cval(args[0]), int) and 0 < cval(args[0]) <= 64:
+        order = args[1] if len(args) > 1 else kwargs.get("byteorder")
+        if order is not None and is_const(order) and cval(order) == "big" and not kwargs.get("signed") and ex.obj(st, recv) is None and recv.op in ("call", "param", "sym", "bin", "uf"):
+            from .exprs import sbytes
+
+            k = cval(args[0])
+            ex.emit("mcall", node, st, name=name, recv=recv, args=tuple(args), kwargs=dict(kwargs), result=None, pure=True, ext_base=None)
+            return sbytes([mk("byteof", recv, k, i) for i in range(k)])
     pure = name in PURE_METHODS and name not in MUTATING_METHODS
     if ext_base in ("BytesIO", "io.BytesIO") and name in ("tell", "getvalue"):
         pure = False
@@ -129,6 +185,8 @@ def call_builtin(ex, name: str, args, kwargs, st: State, node) -> Term:
                 return ex.lift(getattr(builtins, name)(*vals))
             except Exception as e:  # the concrete call itself fails: definite raise
                 ex.emit("extcall", node, st, name=name, recv=None, args=tuple(A), kwargs={}, result=None, pure=True, certain_fail=type(e).__name__)
+                if ex.sym_bytes:  # concrete-control scenarios: a call that certainly raises ends the path
+                    raise PathDead()
                 return sym("failed_" + name)
         except NotConst:
             pass
@@ -334,6 +392,13 @@ def call_builtin(ex, name: str, args, kwargs, st: State, node) -> Term:
         res = mk("call", mk("builtin", "next"), tuple(A), (), evt)
         ex.emit("extcall", node, st, name="next", recv=None, args=tuple(A), kwargs={}, result=res, pure=False)
         return res
+    if name == "int.from_bytes" and ex.sym_bytes and A and A[0].op == "sbytes":
+        order = A[1] if n > 1 else kwargs.get("byteorder")
+        its = A[0].args[0]
+        if order is not None and is_const(order) and cval(order) == "big" and not kwargs.get("signed") and all(x.op == "byteof" for x in its):
+            x0 = its[0]
+            if x0.args[1] == len(its) and all(x.args[0] is x0.args[0] and x.args[1] == len(its) and x.args[2] == i for i, x in enumerate(its)):
+                return x0.args[0]  # from_bytes(v.to_bytes(n, "big"), "big") == v
     if name == "int.from_bytes" or name == "bytes_to_int":
         res = mk("call", mk("builtin", "int.from_bytes"), tuple(A), tuple(sorted(kwargs.items())), 0)
         try:
@@ -350,6 +415,8 @@ def call_builtin(ex, name: str, args, kwargs, st: State, node) -> Term:
                 return C(bytes.fromhex(v))
             except (ValueError, TypeError) as e:
                 ex.emit("extcall", node, st, name=name, recv=None, args=tuple(A), kwargs={}, result=None, pure=True, certain_fail=type(e).__name__)
+                if ex.sym_bytes:  # concrete-control scenarios: a call that certainly raises ends the path
+                    raise PathDead()
                 return sym("failed_fromhex")
         except NotConst:
             pass
@@ -467,6 +534,8 @@ def call_bmeth(ex, recv: Term, name: str, args, kwargs, st: State, node) -> Term
                         r = getattr(rv, name)(*vals, **kw)
                     except Exception as e:
                         ex.emit("mcall", node, st, name=name, recv=recv, args=tuple(A), kwargs=dict(kwargs), result=None, pure=True, certain_fail=type(e).__name__)
+                        if ex.sym_bytes:  # concrete-control scenarios: a call that certainly raises ends the path
+                            raise PathDead()
                         return sym("failed_" + name)
                     if name in ("items", "keys", "values"):
                         r = tuple(r)
@@ -640,6 +709,17 @@ def _join(ex, sep: Term, it: Term, st: State, node) -> Term:
                 return C(cval(sep).join(cval(x) for x in items))
             except TypeError:
                 pass
+        if ex.sym_bytes and is_const(sep) and isinstance(cval(sep), bytes):
+            from .exprs import sb_items, sbytes
+
+            parts = [sb_items(x) for x in items]
+            if all(p is not None for p in parts):
+                out = []
+                for i, p in enumerate(parts):
+                    if i:
+                        out.extend(C(b) for b in cval(sep))
+                    out.extend(p)
+                return sbytes(out)
         o = ex.obj(st, it)
         res = mk("join", sep, mk("tuple", tuple(items)))
         ex.emit("mcall", node, st, name="join", recv=sep, args=(it,), kwargs={}, result=res, pure=True)
@@ -694,6 +774,8 @@ def call_ext(ex, name: str, args, kwargs, st: State, node) -> Term:
                 return C(binascii.unhexlify(v))
             except Exception as e:
                 ex.emit("extcall", node, st, name=name, recv=None, args=tuple(A), kwargs={}, result=None, pure=True, certain_fail=type(e).__name__)
+                if ex.sym_bytes:  # concrete-control scenarios: a call that certainly raises ends the path
+                    raise PathDead()
                 return sym("failed")
         except NotConst:
             pass
